@@ -66,9 +66,9 @@ theorem gjkEpsTol_pos : 0 < @gjkEpsTol K (fieldNum K sq) := by
   have h10 : ((mkRat 10 1 : ℚ) : K) = 10 := by norm_num
   rw [h10]; positivity
 
-theorem relEqZero_false_of_gt (x : K) (h : @gjkEpsTol K (fieldNum K sq) < x) :
-    @relEqZero K (fieldNum K sq) x = false := by
-  simp only [relEqZero, defaultEps_eq, fieldNum_nabs, decide_eq_false_iff_not, not_le]
+theorem gjkRelEqZero_false_of_gt (x : K) (h : @gjkEpsTol K (fieldNum K sq) < x) :
+    @gjkRelEqZero K (fieldNum K sq) x = false := by
+  simp only [gjkRelEqZero, defaultEps_eq, fieldNum_nabs, decide_eq_false_iff_not, not_le]
   have hx : epsK K ≤ @gjkEpsTol K (fieldNum K sq) := by
     simp only [gjkEpsTol, defaultEps_eq, fieldNum_lit]
     have h10 : ((mkRat 10 1 : ℚ) : K) = 10 := by norm_num
@@ -81,7 +81,7 @@ theorem rayToiWithHalfspace_some (sp dir curO u : V3 K) (t : K) :
     letI := fieldNum K sq
     rayToiWithHalfspace sp dir curO u = some t →
     dotK dir u ≠ 0 ∧ 0 ≤ t ∧ t * dotK dir u = dotK dir sp - dotK dir curO := by
-  simp only [rayToiWithHalfspace, lineToiWithHalfspace, relEqZero, defaultEps_eq, fieldNum_nabs]
+  simp only [rayToiWithHalfspace, lineToiWithHalfspace, gjkRelEqZero, defaultEps_eq, fieldNum_nabs]
   intro h
   split at h
   · rename_i t' heq
@@ -113,7 +113,7 @@ theorem rayToiWithHalfspace_none (sp dir curO u : V3 K) :
     dotK dir sp < dotK dir curO := by
   simp only [rayToiWithHalfspace, lineToiWithHalfspace]
   intro h hgt
-  have hre := relEqZero_false_of_gt sq (dotK dir u) hgt
+  have hre := gjkRelEqZero_false_of_gt sq (dotK dir u) hgt
   have hd : (@V3.dot K (fieldNum K sq) dir u) = dotK dir u := rfl
   rw [hd, hre] at h
   simp only [Bool.false_eq_true, ↓reduceIte] at h
